@@ -39,6 +39,7 @@ def run(ctx):
                       workers=vlib.NCPU, timeout=2400)
         vecs = [json.loads(s) for s in gen.scenarios] + [dict(v, st="extra") for v in EXTRA]
         scenarios = [two_conn_wrap(v) for v in vecs]
+        scenarios += [cmdlib.concurrent_slow(v) for v in range(8)]     # "what the handler returns is what the client receives", concurrently
     ctx.stage("generate")
     accepted, scs, lines = connlib.run_scenarios(ctx, scenarios, "c05")
     groups = connlib.report(ctx, accepted, scs, lines, None)
